@@ -38,7 +38,8 @@ META = {
                    "the Python side, both are expanded into decision tables over their inputs and compared on every "
                    "combination of their atomic conditions; C-only semantics (cdivision, 32-bit float/int) are checked on "
                    "the typed tree."
-                   " Round 3: every global name used in a module with a fast/fallback switch is bound there (symtable); the pair splitter understands the if/else form of a fast path.",
+                   " Round 3: every global name used in a module with a fast/fallback switch is bound there (symtable); the pair splitter understands the if/else form of a fast path."
+                   " Round 4: products of C integers are computed in 64 bit (obligation, was informational); integer-to-integer casts are identities in the pair comparison.",
     "assumptions": ["conditions are side-effect free (operands of and/or compared as sets)",
                     "datetime/timedelta arithmetic is the same object arithmetic on both sides",
                     "timedelta microseconds are 0 for slot-aligned dates (lemma L1 is exact anyway)"],
